@@ -60,7 +60,89 @@ def gen_cases(rng, tier):
                     updates.append({"op": "set_initial", "name": u["name"], "value": ocpgen.rnd(rng, -2, 2)})
         cases.append({"spec": spec, "phase": phase, "updates": updates, "seed": rng.getrandbits(32),
                       "solve_loaded": rng.random() < 0.5})
+    # multi-stage problems (stages declared directly and cloned from a template, parent variable / parameter, couplings)
+    from . import c12
+    for mc in c12.gen_cases(rng, tier)[: (25 if tier == "quick" else 250)]:
+        mc["kind"] = "multistage"
+        mc["phase"] = rng.choice(["before", "after_transcription"])
+        mc["pp_update"] = ocpgen.rnd(rng, 0.3, 2.0) if (mc["phase"] != "before" and rng.random() < 0.5) else None
+        mc["sub_update"] = rng.random() < 0.5
+        cases.append(mc)
     return cases
+
+
+def run_multistage(case):
+    """save / load of a multi-stage OCP: the loaded problem must transcribe to the same NLP data"""
+    import rockit
+    from ..gen import build
+    from ..obs import nlp
+    from . import c12
+    res = {"sig": "multistage|%s|%s|%s" % (case["mode"], case["phase"], "||".join(
+        C.config_sig(sp).rsplit("|", 1)[0] for sp in case["stages"])), "evals": 0, "violations": [],
+        "counters": {"nlp_points": 0, "multistage": 1}}
+    rng = np.random.default_rng(case["seed"])
+    fname = os.path.join(os.getcwd(), "c18m_%d.rockit" % case["seed"])
+    try:
+        ocp, pv, pp, builts, tmpl, tmpl_snap, _ = C.call("declare", c12.build_multistage, case)
+        if case["phase"] != "before":
+            C.call("transcribe", nlp.NlpView, ocp)
+            if case.get("pp_update") is not None:
+                C.call("set_value(parent, transcribed)", ocp.set_value, pp, case["pp_update"])
+            if case.get("sub_update"):
+                for b in builts:
+                    for p_ in b.spec["params"][:1]:
+                        from .c09 import rand_value
+                        val = rand_value(__import__("random").Random(case["seed"]), p_, b.spec["method"]["N"])
+                        C.call("set_value(stage, transcribed)", b.stage.set_value, b.syms[p_["name"]],
+                               build.param_value({"value": val}))
+        v0 = None
+        if case["phase"] != "before":
+            v0 = nlp.NlpView(ocp)
+            pts = [v0.random_point(rng) for _ in range(3)]
+            ref = [(v0.eval(w, v0.p0)) for w in pts]
+            ref_x0, ref_p0 = v0.x0.copy(), v0.p0.copy()
+        C.call("save", ocp.save, fname)
+        ocp2 = C.call("load", rockit.Ocp.load, fname)
+        v1 = C.call("transcribe(original after save)", nlp.NlpView, ocp)
+        if v0 is None:
+            pts = [v1.random_point(rng) for _ in range(3)]
+            ref = [(v1.eval(w, v1.p0)) for w in pts]
+            ref_x0, ref_p0 = v1.x0.copy(), v1.p0.copy()
+        v2 = C.call("transcribe(loaded)", nlp.NlpView, ocp2)
+    except C.RockitRaised as e:
+        res["violations"].append(C.exc_violation(ID, e, "multistage|" + case["phase"]))
+        return res
+    finally:
+        try:
+            os.unlink(fname)
+        except OSError:
+            pass
+    for tag, v, mech in (("loaded OCP", v2, "loaded"), ("original after save()", v1, "original-after-save")):
+        res["evals"] += 1
+        if (v.nx, v.ng, v.np) != (len(ref_x0), len(ref[0][1]), len(ref_p0)):
+            res["violations"].append({"kind": "size", "mech": "C18|%s|nlp-size|multistage" % mech,
+                                      "detail": "%s: sizes %s vs %s" % (tag, (v.nx, v.ng, v.np), (len(ref_x0), len(ref[0][1]), len(ref_p0)))})
+            return res
+        if v.np and np.max(np.abs(v.p0 - ref_p0)) > 1e-12:
+            res["violations"].append({"kind": "parameters", "mech": "C18|%s|parameter-values|multistage" % mech,
+                                      "detail": "%s: parameter vector %s, original %s" % (tag, C.short(v.p0), C.short(ref_p0))})
+            return res
+        if v.nx and np.max(np.abs(v.x0 - ref_x0)) > 1e-12:
+            res["violations"].append({"kind": "start", "mech": "C18|%s|start-point|multistage" % mech,
+                                      "detail": "%s: start point differs by %.3g" % (tag, np.max(np.abs(v.x0 - ref_x0)))})
+            return res
+        for w, (f0, g0, lb0, ub0) in zip(pts, ref):
+            f1, g1, lb1, ub1 = v.eval(w, v.p0)
+            res["evals"] += 1
+            res["counters"]["nlp_points"] += 1
+            if not all(np.allclose(a, b_, rtol=1e-11, atol=1e-11, equal_nan=True) for a, b_ in
+                       ((f0, f1), (g0, g1), (lb0, lb1), (ub0, ub1))):
+                res["violations"].append({"kind": "nlp", "mech": "C18|%s|nlp-functions|multistage" % mech,
+                                          "detail": "%s: f %.12g vs %.12g" % (tag, f1, f0)})
+                return res
+    res["nontrivial"] = res["counters"]["nlp_points"] > 0
+    res["sample"] = {"mode": case["mode"], "phase": case["phase"], "stages": len(case["stages"])}
+    return res
 
 
 def classify(case, v):
@@ -95,6 +177,8 @@ def loaded_built(ocp2, spec):
 
 
 def run_case(case):
+    if case.get("kind") == "multistage":
+        return run_multistage(case)
     import rockit
     from ..gen import build
     from . import engine
